@@ -12,8 +12,9 @@ classdef("liquer.parser.ResourceName", fields=dict(name=Str, position=Opt(Ref("P
 classdef("liquer.parser.SegmentHeader", fields=dict(name=Str))
 classdef("Segment", sealed=True, fields=dict(header=Opt(Ref("SegmentHeader"))))
 classdef("liquer.parser.ResourceQuerySegment", bases=["Segment"], fields=dict(query=Seq(Ref("ResourceName"))))
-classdef("liquer.parser.ActionRequest", fields={})
-classdef("liquer.parser.TransformQuerySegment", bases=["Segment"],
+classdef("ActionLike", sealed=True, fields={})       # what evaluate_action accepts: an action request or a one-step transform segment
+classdef("liquer.parser.ActionRequest", bases=["ActionLike"], fields=dict(name=Str, parameters=Seq(Opaque("Any")), position=Opaque("Any")))
+classdef("liquer.parser.TransformQuerySegment", bases=["Segment", "ActionLike"],
          fields=dict(query=Seq(Ref("ActionRequest")), filename=Opt(Str)))
 classdef("liquer.parser.Query", fields=dict(segments=Seq(Ref("Segment")), absolute=Bool))
 
